@@ -87,6 +87,9 @@ Results(x, a1, a2) ==
        cacheok |-> /\ k2.cache = k1.cache
                    /\ \A c \in DOMAIN k1.cache : c \in {C1, C2} /\ ~k1.cache[c].frozen /\ k1.cache[c].sp = Cur(a1, a2)[c],
        later |-> k3.ex,
+       poked |-> AlgCallSel(sel, pc, TRUE, PokeCache(pc, <<C1, CU, C2>>, EmptyCache)).ex,
+       pokedw |-> AlgCallSel(sel, pc, TRUE, PokeCache(pc, <<CU, C2, CU>>, k2.cache)).ex,
+       pokeok |-> \A c \in DOMAIN PokeCache(pc, <<C1, CU, C2>>, EmptyCache) : c \in {C1, C2},
        defL  |-> DefExcludedA(act, N0, Cur(n1, n2)),
        notign |-> AlgExcludedSel(sel, ProvOf("dict", a1, a2), FALSE),
        many  |-> AlgCompositeSel(sel, <<DictProv(Cur1(a1)), DictProv(Cur2(a2))>>, TRUE),
@@ -116,6 +119,8 @@ CompositeAny == OnCase(res.many = (res.def1 \/ res.def2) /\ res.many = res.def /
 CacheSound == OnCase(res.warm = res.comp /\ res.cacheok)
 \* ... and a warm cache over dict members follows the value that is current at the later call
 CacheFollowsCurrent == OnCase(res.later = res.defL)
+\* plain lookups (get with any default, print_active_tags) before a decision never change what the provider knows
+LookupKeepsKnowledge == OnCase(res.poked = res.def /\ res.pokedw = res.def /\ res.pokeok)
 \* unknown categories: with ignore_unknown_categories=False the group of an unknown category behaves like a
 \* known category whose value matches nothing (documented in features/tags.active_tags.feature; not part of C19)
 NotIgnored == OnCase(res.notign = res.defU)
